@@ -168,11 +168,22 @@ pub fn nest_source(kind: usize, depth: usize, rng: &Rng, d: &Delims) -> String {
                 "{% set a = [x for x in y if x] %}{% continue %}", "{% for a in b %}{% endfor %}{% continue %}", "{% for a in b %}{% else %}{% break %}{% endfor %}",
                 "{% component C() %}{{ [x for x in y] }}{% continue %}{% endcomponent C %}", "{% for a in b %}{% component D() %}{% break %}{% endcomponent D %}{% endfor %}",
                 "{% for a in [x for x in y] %}{% endfor %}{% break %}", "{% filter upper %}{% continue %}{% endfilter %}", "{% block b %}{% break %}{% endblock %}",
+                // argument and placement rules of extends / include
+                "a{% extends \"x\" %}", "{% extends \"x\" %}{% extends \"y\" %}", "{% block b %}{% extends \"x\" %}{% endblock %}", "{% if a %}{% extends \"x\" %}{% endif %}", "{% extends x %}", "{% extends 1 %}",
+                "{% extends \"a\" ~ \"b\" %}", "{% extends \"\" %}", "{% extends `x` %}", "{% extends \"x\" y %}", "{% extends", "{% extends %}", "{% include x %}", "{% include 1 %}", "{% include \"a\" ~ \"b\" %}", "{% include \"\" %}",
+                "{% include \"x\" y %}", "{% include", "{% include %}", "{% include \"a\\nb\" %}", "{% for a in b %}{% extends \"x\" %}{% endfor %}", "{% component C2() %}{% extends \"x\" %}{% endcomponent C2 %}", "{% include 'x' | upper %}",
+                // keyword-argument lists
+                "{{ a | truncate(length=1, length=2) }}", "{{ a | truncate(1) }}", "{{ a | truncate(length=) }}", "{{ a | truncate(=1) }}", "{{ a | truncate(length 1) }}", "{{ a | truncate(length=1,) }}", "{{ a | truncate(,length=1) }}",
+                "{{ a | truncate(length=1,,end=2) }}", "{{ a | truncate(in=1) }}", "{{ a | truncate(not=2, true=3) }}", "{{ a | replace(from=range(end=range(end=1) | length) | length, to={\"k\": [1]}) }}", "{{ x is divisible_by(divisor=1) and y }}",
+                "{{ x is divisible_by(divisor=1, divisor=2) }}", "{{ x is divisible_by( }}", "{{ a | truncate(", "{{ range(end=1, end=2) }}", "{{ range(1) }}", "{{ range(end=1 }}", "{{ <C3 a=1 a=2/> }}", "{{ <C3 a= /> }}", "{{ <C3 =1/> }}", "{{ <C3 a=1", "{{ <C3 {...}/> }}",
+                "{{ a | truncate(length=1, end=2, a=3, b=4, c=5, d=6, e=7, f=8, g=9, h=10, i=11, j=12, k=13, l=14, m=15, n=16, o=17, p=18) }}", "{{ a | upper() }}", "{{ a | upper( ) | lower }}", "{{ a | upper(length) }}",
                 "{% if true %}{% if false %}{% endif %}{% endif %}", "{% for a in b %}{% if a %}{% break %}{% endif %}{% endfor %}", "{% for a in b %}{% continue %}{% endfor %}", "{{ a.b?.c }}", "{{ a?[0] }}",
                 "{{ \"\" ~ \"\" }}", "{{ [][0] }}", "{{ {}[\"a\"] }}", "{{ \"\"[0:0] }}", "{{ x | default(value=[]) }}", "{% component E() %}{% endcomponent E %}{{ <E/> }}", "{% component F(a=[]) %}{{ a }}{% endcomponent F %}{{ <F a={[...[1]]}/> }}",
             ];
             let mut t = String::new();
-            for _ in 0..rng.range(1, 3) {
+            // (`depth` doubles as the number of shapes when called from the shapes mode)
+            let count = if depth >= 1000 { depth - 1000 } else { rng.range(1, 3) };
+            for _ in 0..count {
                 t.push_str(rng.pick(SHAPES));
             }
             let ph = ["\u{e000}", "\u{e001}", "\u{e002}", "\u{e003}", "\u{e004}", "\u{e005}"];
@@ -268,6 +279,10 @@ pub fn generate(seed: u64, tier: &str, _property: &str) -> DiskScenario {
         source = chain_source(rng.below(7), rng.range(4000, 9000), &delims);
         crash_shape = "left-deep-chain".to_string();
         few_variants = true;
+    } else if mode < 20 {
+        // shapes mode: 3-8 of the unusual-but-small constructs in a row (kind 24), through the
+        // full fault closure
+        source = nest_source(24, 1000 + rng.range(3, 8), &rng, &delims);
     } else if rng.chance(1, 3) {
         // multi-byte characters right next to delimiters
         source = format!("\u{e9}{}\u{1F389}{} \"\u{e9}\u{4e2d}\" {}\u{ae}\u{a9}{}\u{e9}{}", source, delims.vs, delims.ve, delims.cs, delims.ce);
